@@ -70,6 +70,14 @@ def gen_cases(ctx):
         for c in (0.7, -1.3, 2.5):
             mk("exp_factor", n, {"ops": [], "coef": [float2bits(c), float2bits(0.0)]}, factor=[float2bits(0.0), float2bits(rng.uniform(-2, 2))])
             mk("neg_i_dt", n, {"ops": [], "coef": [float2bits(c), float2bits(0.0)]}, dt=float2bits(rng.choice([0.3, -1.1, 2.0])))
+    # registers of 10 (11) qubits with strings made mostly of Y factors (odd and even counts), through each entry point
+    for n, ny, mode in ((10, 1, "exp"), (10, 3, "neg_i_dt"), (10, 2, "exp_factor")) + (((11, 5, "exp"), (11, 3, "neg_i_dt")) if ctx.thorough() else ()):
+        qs = rng.sample(range(n), ny + 2)
+        t = {"ops": [[q, "Y"] for q in qs[:ny]] + [[qs[ny], "X"], [qs[ny + 1], "Z"]], "coef": coef_for_exp(rng, "generic")}
+        rng.shuffle(t["ops"])
+        if mode == "exp": mk("exp", n, t)
+        elif mode == "exp_factor": mk("exp_factor", n, t, factor=coef_for_exp(rng, "imag"))
+        else: mk("neg_i_dt", n, dict(t, coef=[float2bits(0.8), float2bits(0.0)]), dt=float2bits(0.7))
     # out-of-range factors
     for n in (1, 2, 3):
         t = rand_string(rng, n, allow_empty=False); t["ops"][0][0] = n + rng.randrange(0, 3); t["coef"] = coef_for_exp(rng, "generic")
